@@ -2263,8 +2263,10 @@ class Controller:
                 self.log.critical(traceback.format_exc())
         finally:
             # VV: This component is marked as done; this lets the controller inspect the actual state of the
-            #     Component instead of assuming it is still in `running` state
-            self.comp_done.add(component.specification.reference)
+            #     Component instead of assuming it is still in `running` state. Whoever holds comp_lock (e.g. the status
+            #     monitor while it reads the stages in transit and the finished ones) sees a consistent picture
+            with self.comp_lock:
+                self.comp_done.add(component.specification.reference)
 
             # VV: Print information about components that are either scheduled, or waiting to be scheduled (i.e. active)
             report = self.generate_status_report_for_nodes(components=None, filter_done=True)
